@@ -239,3 +239,114 @@ func progressHonestRule(c *Ctx, rule string, pred func(string) bool, floor int) 
 	}
 	c.Check(n >= floor, rule, "instances", 0, "stages with hand-offs found ("+itoa(n)+")", "only "+itoa(n)+" progress-reporting stages with hand-offs found (expected at least "+itoa(floor)+")")
 }
+
+var lifecycleAPIs = map[string]bool{"StartTask": true, "EndTask": true, "TraceReqReceive": true, "TraceReqComplete": true, "TraceReqInitiate": true, "TraceReqFinalize": true}
+
+// mayTouchLifecycle: the call starts or ends a tracing task, directly or through
+// same-package helpers (two levels).
+func mayTouchLifecycle(call ssa.CallInstruction, depth int) (bool, string) {
+	if isTracingCall(call, "StartTask", "EndTask", "TraceReqReceive", "TraceReqComplete", "TraceReqInitiate", "TraceReqFinalize") {
+		return true, call.Common().StaticCallee().Name()
+	}
+	sc := call.Common().StaticCallee()
+	if sc == nil || depth <= 0 || len(sc.Blocks) == 0 || sc.Pkg == nil || !libComponentPkg(sc.Pkg.Pkg.Path()) {
+		return false, ""
+	}
+	for _, b := range sc.Blocks {
+		for _, in := range b.Instrs {
+			if c2, ok := in.(ssa.CallInstruction); ok {
+				if yes, what := mayTouchLifecycle(c2, depth-1); yes {
+					return true, sc.Name() + "→" + what
+				}
+			}
+		}
+	}
+	return false, ""
+}
+
+// lifecycleBeforeStallRule: a task start or end must not be executed before a
+// "cannot send/push yet: return false" test in the same function: the stage is
+// retried every cycle until the resource frees up, and the task would be started
+// or ended once per retry instead of exactly once.
+func lifecycleBeforeStallRule(c *Ctx, rule string, floor int) {
+	p := c.P
+	sites := 0
+	for _, fn := range p.SrcFuncs(func(pp string) bool { return libComponentPkg(pp) }) {
+		for _, b := range fn.Blocks {
+			ifi, ok := b.Instrs[len(b.Instrs)-1].(*ssa.If)
+			if !ok || !isStallGuard(ifi) {
+				continue
+			}
+			sites++
+			bad := ""
+			for _, bb := range fn.Blocks {
+				for _, in := range bb.Instrs {
+					call, isCall := in.(ssa.CallInstruction)
+					if !isCall || !InstrDominates(in, ifi) {
+						continue
+					}
+					if yes, what := mayTouchLifecycle(call, 2); yes {
+						bad = what + " at " + p.Rel(in.Pos())
+					}
+				}
+			}
+			if bad != "" {
+				c.Fail(rule, SSAFuncKey(fn)+"#stall@"+itoa(stallOrdinal(fn, b)), ifi.Cond.Pos(), "a task is started or ended ("+bad+") before the stage tests whether it can hand its result on and returns false when it cannot: the stage is retried every cycle while the resource is busy, so the task is started or ended once per retry instead of exactly once")
+			}
+		}
+	}
+	c.Check(sites >= floor, rule, "<stall sites>", 0, itoa(sites)+" stall sites inspected; no task start/end precedes one", "fewer stall sites found than confirmed by hand")
+}
+
+func stallOrdinal(fn *ssa.Function, at *ssa.BasicBlock) int {
+	k := 0
+	for _, b := range fn.Blocks {
+		if b == at {
+			return k
+		}
+		if ifi, ok := b.Instrs[len(b.Instrs)-1].(*ssa.If); ok && isStallGuard(ifi) {
+			k++
+		}
+	}
+	return k
+}
+
+// isStallGuard: "if !X.CanSend()/CanPush()/CanAccept()/CanDeliver() { return false }".
+func isStallGuard(ifi *ssa.If) bool {
+	b := ifi.Block()
+	cond := ifi.Cond
+	neg := false
+	for {
+		if u, isU := cond.(*ssa.UnOp); isU && u.Op == token.NOT {
+			cond, neg = u.X, !neg
+			continue
+		}
+		break
+	}
+	call, isCall := cond.(*ssa.Call)
+	if !isCall {
+		return false
+	}
+	name, pkg := calleeNamePkg(call)
+	switch name {
+	case "CanSend", "CanPush", "CanAccept", "CanDeliver":
+	default:
+		return false
+	}
+	if !strings.HasSuffix(pkg, "/messaging") && !strings.HasSuffix(pkg, "/queueing") {
+		return false
+	}
+	stall := b.Succs[1]
+	if neg {
+		stall = b.Succs[0]
+	}
+	ret, isRet := stall.Instrs[len(stall.Instrs)-1].(*ssa.Return)
+	if !isRet || len(stall.Instrs) > 2 {
+		return false
+	}
+	if len(ret.Results) == 1 {
+		cst, isC := ret.Results[0].(*ssa.Const)
+		return isC && cst.Value != nil && cst.Value.String() == "false"
+	}
+	return len(ret.Results) == 0
+}
